@@ -4,12 +4,25 @@ Track.tla (fault-free behaviours: RoundTrip) and Hfe3.tla (the opcode interprete
 are recorded as HFE v1, HFE v3 (opcode placements taken from the TLC cases, mapped onto real block boundaries) and HxC
 MFM with varied gap / sync lengths, sector order and skew, one or two sides, and every command's output on the flux
 image is compared with the sector dump of the same disc; TraceFlux.tla judges the observations."""
-import os, json, random, shutil
+import os, json, random, shutil, re
 import common, mkdisc, mkflux, discs
 
 
 def disc_image(k, spt, ntr, rnd, two_sided=False):
     n = ntr * spt
+    # every third double-density 80-track disc is an Opus DDOS disc, every fourth FM disc a Watford one
+    if spt == 18 and ntr == 80 and k % 3 == 0:
+        ents = [mkdisc.entry("OP%d" % i, "$", i == 1, 0x1900, 0x8023, [700, 256, 1][i], 40 - 5 * i) for i in range(3)]
+        d = discs.build("OPUS", ents, "/var/tmp/beebtools-verif/scratch", "c05-opus-%d-%d" % (os.getpid(), k), salt=40 + k, opus_letter="ABCH"[k % 4], title=b"FLUXOP")
+        os.unlink(d.path)
+        d.img_ents = ents
+        return d.img, [dict(e, _drive=d.drive) for e in ents]
+    if spt == 10 and k % 4 == 1:
+        # the files of the second catalogue (sectors 2-3) lie above those of the first
+        e1 = [mkdisc.entry("W%d" % i, "$", False, 0, 0, 300, n - 40 - 3 * i) for i in range(5)]
+        e2 = [mkdisc.entry("X%d" % i, "B", False, 0, 0, 200, n - 10 - 3 * i) for i in range(4)]
+        img = mkdisc.surface_wdfs(n, 40 + k, title=b"FLUXW%d" % k, cycle=k, opt=k & 3, entries1=e1, entries2=e2)
+        return img, e1 + e2
     ents = []
     start = n - 1
     for i in range(rnd.randint(2, 6)):
@@ -24,6 +37,15 @@ def disc_image(k, spt, ntr, rnd, two_sided=False):
 
 
 def commands(ents, spt, ntr, drive="0"):
+    if ents and "_drive" in ents[0]:          # Opus: address the volume that holds the files
+        vol = ents[0]["_drive"][-1]
+        cmds = [["cat", drive + vol], ["info", ":%s%s.#.*" % (drive, vol)], ["free", drive + vol], ["sector-map", drive], ["show-titles", drive],
+                ["cat", drive + "A"]]
+        for e in ents:
+            cmds.append(["type", "--binary", ":%s%s.%c.%s" % (drive, vol, e["dir"], e["name"].decode())])
+        for t, s_ in ((0, 16), (1, 0), (ntr - 1, spt - 1)):
+            cmds.append(["dump-sector", drive, str(t), str(s_)])
+        return cmds
     cmds = [["cat", drive], ["info", ":%s.#.*" % drive], ["free", drive], ["sector-map", drive], ["space", drive], ["show-titles", drive]]
     for e in ents:
         cmds.append(["type", "--binary", ":%s.%c.%s" % (drive, e["dir"], e["name"].decode())])
@@ -66,7 +88,7 @@ def run(chk, tier, seed):
     for k in range(nimg):
         enc, ntr, spt = geoms[k % len(geoms)]
         fmt = ["hfe1", "hfe3", "mfm"][(k // len(geoms)) % 3] if enc == "MFM" else ["hfe1", "hfe3"][(k // len(geoms)) % 2]
-        two = (k % 3 == 1) and fmt != "mfm"
+        two = (k % 2 == 1) and fmt != "mfm"
         jobs.append((k, enc, ntr, spt, fmt, two))
     # opcode placement sweep on a small FM image: every TLC placement mapped to real block positions
     pl_jobs = placements if not quick else placements[::6]
@@ -119,14 +141,16 @@ def run(chk, tier, seed):
                         continue
                     of = common.run([dfs, "--file", path] + cmd, timeout=60)
                     # the dump of side si attached alone is drive 0
-                    cmd_d = [c.replace(":2.", ":0.") if c.startswith(":2.") else ("0" if c == "2" and i == 1 else c) for i, c in enumerate(cmd)]
+                    cmd_d = [re.sub(r"^:2([A-H]?)\.", r":0\1.", c) if c.startswith(":2") else (re.sub(r"^2([A-H]?)$", r"0\1", c) if i == 1 else c) for i, c in enumerate(cmd)]
                     od = common.run([dfs, "--file", dp] + cmd_d, timeout=60)
                     outf = of.out
                     if si == 1:        # the same surface is drive 2 in the flux image and drive 0 when its dump is attached alone
                         if cmd[0] == "cat":
                             outf = outf.replace(b"Drive 2", b"Drive 0")
                         elif cmd[0] == "show-titles":
-                            outf = outf.replace(b"2: ", b"0: ", 1)
+                            outf = re.sub(rb"(?m)^2([A-H]?): ", rb"0\1: ", outf)
+                        elif cmd[0] == "never":
+                            pass
                         elif cmd[0] == "space":
                             outf = outf.replace(b"on disc 2", b"on disc 0")
                     evs.append(dict(e="equiv", tag=tag, fmt=fmt, enc=enc, spt=spt, ntr=ntr, side=si, cmd=cmd[:2], same=1 if (outf == od.out and of.rc == od.rc) else 0,
